@@ -6,6 +6,7 @@
   around the 1e5 / 2·len / 10·len switch of the numba variant).
 -/
 import PPV.Model.GroupSum
+import PPV.Lemmas.GroupNp
 import Mathlib.Data.List.Perm.Basic
 import Mathlib.Algebra.BigOperators.Group.List.Basic
 import Mathlib.Tactic.Ring
@@ -42,6 +43,16 @@ theorem groupsum_bucket_eq_spec (pairs : List (Nat × R)) : groupBucket pairs = 
   apply List.map_congr_left
   intro k _
   rw [bucketAcc_eq_sumOf]
+
+/-- **numpy variant = specification**: stable sort, running sum, run ends, neighbour differences yield, for every
+    list of (label, value) pairs, the ascending distinct labels with the sum of the values carrying each
+    (exact arithmetic; the float variant differs by the rounding of the running sum) -/
+theorem groupsum_np_eq_spec (pairs : List (Nat × R)) : groupNp pairs = groupSpec pairs :=
+  PPV.Lemmas.GroupNp.groupNp_eq_spec pairs
+
+/-- hence the two engines' grouped sums agree on every input -/
+theorem groupsum_np_eq_numba (pairs : List (Nat × R)) : groupNp pairs = groupBucket pairs := by
+  rw [groupsum_np_eq_spec, groupsum_bucket_eq_spec]
 
 /-- the per-key sum does not depend on the order of the rows -/
 theorem sumOf_perm (p q : List (Nat × R)) (h : p.Perm q) (k : Nat) : sumOf p k = sumOf q k := by
